@@ -1,6 +1,7 @@
 package world
 
 import (
+	"bytes"
 	"context"
 	"encoding/json"
 	"errors"
@@ -273,6 +274,13 @@ func (w *World) RemoteConfig(st *env.Store, withCache bool) *mast.RemoteConfig {
 			}
 			if err := w.Msh.Tick(); err != nil {
 				return nil, err
+			}
+			if cfg.MarshalNL {
+				var buf bytes.Buffer
+				if err := json.NewEncoder(&buf).Encode(v); err != nil {
+					return nil, err
+				}
+				return buf.Bytes(), nil
 			}
 			return json.Marshal(v)
 		}
